@@ -16,6 +16,7 @@ import (
 	"fmt"
 	"os"
 	"os/exec"
+	"runtime/debug"
 	"sort"
 	"strings"
 	"sync"
@@ -55,6 +56,7 @@ type ReopenResult struct {
 	Opened *State `json:"opened"`
 	Final  *State `json:"final"`
 	Err    string `json:"err,omitempty"`
+	Stack  string `json:"stack,omitempty"`
 }
 
 func dumpState(n *chainsim.Node) *State {
@@ -158,6 +160,7 @@ func reopen(wlFile, dir, mode, out string) {
 	defer func() {
 		if r := recover(); r != nil {
 			res.Err = fmt.Sprint("panic: ", r)
+			res.Stack = string(debug.Stack())
 			write()
 			os.Exit(3)
 		}
@@ -656,10 +659,15 @@ func Main() {
 			if !crashed {
 				run.Inc("crash_point_not_reached")
 			}
-			for _, mode := range []string{"lib", "client"} {
+			for mi, mode := range []string{"lib", "client"} {
 				d2 := d + "-" + mode
 				exec.Command("cp", "-r", d, d2).Run()
-				judge(run, pl, wlFile, d2, mode, fmt.Sprintf("%s#%d", c.name, c.n), crashOp, finalWant, false)
+				crash2 := ""
+				if crashed && (i+mi)%3 == 0 {
+					// deterministic choice of a second crash point from the hook names seen in the trace run
+					crash2 = fmt.Sprintf("%s#%d", names[(i*7+mi*3)%len(names)], 1+(i/3)%3)
+				}
+				judge2(run, pl, wlFile, d2, mode, fmt.Sprintf("%s#%d", c.name, c.n), crashOp, finalWant, false, crash2)
 				os.RemoveAll(d2)
 			}
 			os.RemoveAll(d)
@@ -682,8 +690,31 @@ var judgeMu sync.Mutex
 
 // judge reopens dir in the given mode and applies the recovery oracle.
 func judge(run *vlib.Run, pl *plan, wlFile, dir, mode, point string, crashOp int, finalWant []string, exact bool) {
+	judge2(run, pl, wlFile, dir, mode, point, crashOp, finalWant, exact, "")
+}
+
+// judge2: with crash2 = "<hook point>#<n>" the recovery process itself is killed at that point first
+// (a second crash, during recovery or while the remaining blocks are fed), then the directory is
+// reopened once more and judged.
+func judge2(run *vlib.Run, pl *plan, wlFile, dir, mode, point string, crashOp int, finalWant []string, exact bool, crash2 string) {
 	out := dir + ".result"
 	defer os.Remove(out)
+	if crash2 != "" {
+		r0 := runBin([]string{"reopen", wlFile, dir, mode, out}, []string{"VERIF_CRASH_AT=" + crash2}, 10*time.Minute)
+		os.Remove(out)
+		if r0.TimedOut {
+			run.Inconclusive("recovery watchdog before second crash (%s, %s, %s)", mode, point, crash2)
+			return
+		}
+		crashOp = len(pl.w.Ops) - 1 // the first recovery process may have been fed any (or all) of the blocks
+		if r0.Signal != "" {
+			run.Inc("second_crashes_during_recovery")
+			run.Distinct("second_crash_points", crash2)
+			point = point + "+" + crash2
+		} else {
+			run.Inc("second_crash_point_not_reached(recovery completed, closed cleanly)")
+		}
+	}
 	res := runBin([]string{"reopen", wlFile, dir, mode, out}, nil, 10*time.Minute)
 	var rr ReopenResult
 	if b, err := os.ReadFile(out); err == nil {
@@ -694,6 +725,10 @@ func judge(run *vlib.Run, pl *plan, wlFile, dir, mode, point string, crashOp int
 	pname := point
 	if i := strings.IndexByte(point, '#'); i > 0 {
 		pname = point[:i]
+		if j := strings.IndexByte(point, '+'); j > 0 {
+			k := strings.LastIndexByte(point, '#')
+			pname += "+" + point[j+1:k]
+		}
 	}
 	wit := map[string]interface{}{"workload_seed": pl.w.Seed, "mode": mode, "crash_point": point, "crash_op": crashOp,
 		"ops": opsSummary(pl, crashOp), "replay_hint": "VERIF_SEED and the workload seed regenerate the workload; run worker with VERIF_CRASH_AT=" + point}
@@ -706,6 +741,14 @@ func judge(run *vlib.Run, pl *plan, wlFile, dir, mode, point string, crashOp int
 	if res.ExitCode != 0 || rr.Opened == nil {
 		wit["output_tail"] = vlib.Tail(res.Out, 2500)
 		wit["err"] = rr.Err
+		wit["stack"] = rr.Stack
+		if mode == "client" && strings.Contains(rr.Stack, "clientStyleCatchUp") &&
+			(strings.Contains(rr.Err, "end block is not higher then current") || strings.Contains(rr.Err, "unknown path to block") || strings.Contains(rr.Err, "Child not found")) {
+			// the start-up loop of the client walks the block tree while CommitBlock removes a stored block that
+			// turned out invalid (its descendants stay linked to the removed node): one specific, recorded defect
+			run.Violation("reopen-fails/client/catch-up-walks-into-removed-invalid-branch", "client-style start-up loop panicked after a stored block failed validation: "+rr.Err, wit)
+			return
+		}
 		run.Violation("reopen-fails/"+mode+"/"+pname, fmt.Sprintf("reopening the data directory failed (exit %d %s %s)", res.ExitCode, res.Signal, rr.Err), wit)
 		return
 	}
